@@ -6,6 +6,7 @@ CooArray = namedtuple("CooArray", ["row", "col", "val", "key", "ind", "min", "de
 
 COO_QUICKSORT_LIMIT = 1 << 16
 COO_MEM_MULTIPLIER = 1.5
+COO_MIN_SIZE = 32
 
 # Verification hook (off by default): lets a test harness lower the sort/merge
 # threshold so that the multi-level merge and growth paths are reachable with
